@@ -85,7 +85,9 @@ func (w *World) expectedDeposits(m *mwallet) []depositRec {
 	return out
 }
 
-func depKey(txid string, idx uint32, height uint64) string { return fmt.Sprintf("%s:%d@%d", txid, idx, height) }
+func depKey(txid string, idx uint32, height uint64) string {
+	return fmt.Sprintf("%s:%d@%d", txid, idx, height)
+}
 
 func (w *World) auditHistories(t *rapid.T) { w.auditHistoriesOpt(t, false) }
 
